@@ -255,7 +255,16 @@ theorem step_ok (f : Flags) (s : St) (op : IoOp) (h : Inv f s) : StepOk f (step 
     have hn := nextLine_ok f s
     simp only [step]
     split
-    · rename_i es s' e' heq
+    · rename_i es s' heq
+      rw [heq] at hn
+      refine ⟨?_, inv_of_streams_eq h hn.2⟩
+      intro e he
+      rcases List.mem_append.mp he with he | he
+      · exact hn.1 e he
+      · simp only [List.mem_cons, List.not_mem_nil, or_false] at he
+        subst he
+        exact good_error f _
+    · rename_i es s' e' _ heq
       rw [heq] at hn
       refine ⟨?_, inv_of_streams_eq h hn.2⟩
       intro e he
@@ -264,7 +273,7 @@ theorem step_ok (f : Flags) (s : St) (op : IoOp) (h : Inv f s) : StepOk f (step 
       · simp only [List.mem_cons, List.not_mem_nil, or_false] at he
         subst he
         exact gs.2.2.2
-    · rename_i es s' r hne heq
+    · rename_i es s' r _ _ heq
       rw [heq] at hn
       exact ⟨hn.1, inv_of_streams_eq h hn.2⟩
   | mainLoop =>
@@ -399,9 +408,9 @@ theorem mainLoop_operand_denied (f : Flags) (hr : f.noReads = true) (s : St) (hc
   subst h1 h2
   simp
 
-/-- the same operand reached by an un-redirected getline: the error is swallowed (finding G12-1) -/
+/-- the same operand reached by an un-redirected getline: also exactly the error (G12-1 is repaired) -/
 theorem getline_operand_denied (f : Flags) (hr : f.noReads = true) (s : St) (hc : s.cur = 0)
-    (h : firstRegular s.args = true) : (step f s .getline).1 = [.soft] := by
+    (h : firstRegular s.args = true) : (step f s .getline).1 = [.error .noFileReads] := by
   have hn := nextOperand_denied f hr s.args s h
   simp only [step, nextLine, hc, Nat.lt_irrefl, if_false]
   generalize hgen : nextOperand f s s.args = r at hn
